@@ -21,7 +21,8 @@ pub fn c05_meta(tier: Tier) -> Meta {
             "Work clause: FftPlanner over an operation-counting element type (f64 payload, thread-local counters; both SIMD planners must decline it) for every n in 2..={ops} x both directions x process/in-place/out-of-place/immutable, one chunk: additions+subtractions+multiplications <= 64*n*log2(n), and the counts on three inputs (zeros, random, huge/tiny mix) must be IDENTICAL (input independence); plus {cases} proptest-drawn structured lengths up to {nmax}. \
              Structural clause: the plan text (plan-report hook) of Auto/Scalar/Sse/Avx x f32/f64 for every n in 2..={st}, parsed independently: no naive `Dft(k)` node with k > 32. \
              Scratch clause: all three advertised scratch lengths <= 12n+64 for every n in 0..={sc} x 4 planners x f32/f64 x 2 directions (transform constructed) and the structured large lengths. \
-             Non-trivial: n >= 2; distinct = (kind, planner/type, n or window, entry).",
+             The scratch clause is also checked on planners WITH history: for every prime p up to 1024 (quick) / 8192 (thorough) and every 2^a*3^b length M in [2p,16p], the history [M, p, M', p'] (' = other direction) on the Scalar/Sse/Avx planners. \
+             Non-trivial: n >= 2; distinct = (kind, planner/type, n or window or history, entry).",
         ),
         exhaustive: true,
         exhaustive_note: "all three clauses enumerate their stated ranges completely; the structured large lengths are sampled".into(),
@@ -76,6 +77,30 @@ pub fn c05_worker(ctx: &mut Ctx) {
         }
         if ctx.done() {
             return;
+        }
+    }
+    // scratch clause on planners WITH history: every pair (M, p) of a 2^a*3^b length M in [2p, 16p] planned before a prime p
+    // (a cached M is a candidate inner length of Bluestein's algorithm), and the reverse order
+    {
+        let pmax = ctx.tier.pick(1024usize, 8192);
+        let fams = Families::new(pmax * 16);
+        let primes: Vec<usize> = fams.fams.iter().find(|f| f.0 == "prime_any").map(|f| f.1.clone()).unwrap_or_default();
+        let smooth: Vec<usize> = fams.fams.iter().find(|f| f.0 == "smooth3").map(|f| f.1.clone()).unwrap_or_default();
+        for &q in primes.iter().filter(|&&q| q > 32 && q <= pmax) {
+            for &m in smooth.iter().filter(|&&m| m >= 2 * q && m <= 16 * q) {
+                if !ctx.mine() {
+                    continue;
+                }
+                for planner in [Planner::Scalar, Planner::Sse, Planner::Avx] {
+                    let ty = TYS[(q + m) % 2];
+                    let dir = DIRS[(q / 2) % 2];
+                    let reqs = vec![Req { n: m, dir }, Req { n: q, dir }, Req { n: m, dir: dir.other() }, Req { n: q, dir: dir.other() }];
+                    ctx.exec(&Case::new("C05", "histscratch", planner, ty, dir, q).with_source(Source::History { reqs, pick: 4 }));
+                }
+            }
+            if ctx.done() {
+                return;
+            }
         }
     }
     let fams = Families::new(nmax);
@@ -142,6 +167,13 @@ pub fn c14_worker(ctx: &mut Ctx) {
                     ctx.exec(&Case::new("C14", "exact", Planner::Auto, Ty::F64, dir, n).with_entry(entry).with_input(InputSpec::fam("whole-basis", n as u64)).with_p(vec![1]));
                 }
             }
+            // the opposite direction planned first on the same planner (cache interaction in the portable planner)
+            ctx.exec(
+                &Case::new("C14", "exact", Planner::Auto, Ty::F64, dir, n)
+                    .with_entry(ENTRIES[(n + 1) % 4])
+                    .with_input(InputSpec::fam("random-field", n as u64 + 5))
+                    .with_p(vec![1, 1]),
+            );
         }
         if ctx.done() {
             return;
